@@ -2,7 +2,11 @@ package bexpr
 
 // C05 — absent map keys follow the documented table; unknown-value substitutes exactly.
 
-import "github.com/hashicorp/go-bexpr/grammar"
+import (
+	"encoding/json"
+
+	"github.com/hashicorp/go-bexpr/grammar"
+)
 
 type sC05 struct {
 	A int8
@@ -43,7 +47,7 @@ func H_C05_table() {
 	var d, dPresent interface{}
 	sel := ""
 	expectDisp := false
-	form := vChoose(10)
+	form := vChoose(12)
 	what := ""
 	switch form {
 	case 0:
@@ -62,6 +66,11 @@ func H_C05_table() {
 		d, dPresent, sel, expectDisp, what = map[string]interface{}{"m": map[string]int8(nil)}, nil, "m.x", true, "leaf absent in nil map"
 	case 7:
 		d, dPresent, sel, expectDisp, what = map[string]map[string]nStr{"m": {k: "z"}}, map[string]map[string]nStr{"m": {"x": "z"}}, "m.x", true, "leaf absent in typed map"
+	case 10: // integer-keyed parent: the part is coerced to the key type, and is absent
+		d, dPresent, sel, expectDisp, what = map[string]interface{}{"p": map[int]interface{}{7: v}}, nil, "p.443", true, "leaf absent in an int-keyed map"
+		k = "-"
+	case 11:
+		d, dPresent, sel, expectDisp, what = map[string]interface{}{"p": map[nKeyStr]nStr{nKeyStr(k): "z"}}, map[string]interface{}{"p": map[nKeyStr]nStr{"x": "z"}}, "p.x", true, "leaf absent in a named-string-keyed typed map"
 	case 9:
 		d, dPresent, sel, expectDisp, what = map[string]interface{}{"s": &sC05t{Labels: map[string]interface{}{k: v}}}, map[string]interface{}{"s": &sC05t{Labels: map[string]interface{}{"x": v}}}, "s.labels.x", true, "leaf absent in a map reached through a renamed struct field"
 	default:
@@ -141,7 +150,13 @@ func H_C05_quantifier() {
 }
 
 func unknownC05() interface{} {
-	switch vChoose(5) {
+	switch vChoose(8) {
+	case 5:
+		return json.Number([]string{"5", "05", "1.5", "x"}[vChoose(4)])
+	case 6:
+		return vFloat64()
+	case 7:
+		return nInt(vInt64())
 	case 0:
 		return vInt64()
 	case 1:
